@@ -55,6 +55,7 @@ FAMILIES = {
     # start position (quadratic number of sub-matcher runs, each far shorter than a poll interval)
     "lb_scan_quadratic": ("(?<=b.*)c", lambda n: "a" * n, True),
     "lb_scan_quadratic2": ("(?<!b.*)c", lambda n: "a" * n, True),
+    "big_count": ("a{5000}b|(?:ab){1500}c", lambda n: "a" * min(n, 40), False),
     "exact_repeat": ("a{200}b", lambda n: "a" * n, False),
     "long_literal": ("a" * 120 + "b", lambda n: "a" * n, False),
     "class_exact": ("[a-c]{150}d", lambda n: "abc" * (n // 3), False),
